@@ -14,6 +14,8 @@ pub mod model;
 pub mod parser;
 pub mod partials;
 pub mod runtime;
+#[cfg(feature = "verif-hooks")]
+pub mod verif_hooks;
 
 pub use error::{Error, Result};
 #[cfg(feature = "derive")]
